@@ -529,7 +529,7 @@ PROPS["C02"] = {
                  "WhatIs.C02.private_not_shown", "WhatIs.DerKeys.pub_fields", "WhatIs.DerKeys.dsa_fields", "WhatIs.DerKeys.strict_keys",
                  "WhatIs.DerKeys.pkcs1pub_from_der", "WhatIs.DerKeys.dsa_from_der",
                  "WhatIs.C02.ssh_mpint_readback", "WhatIs.C02.ssh_rsa_blob_readback", "WhatIs.C02.ssh_rsa_blob_described",
-                 "WhatIs.C02.ssh_ed25519_blob_readback"],
+                 "WhatIs.C02.ssh_ed25519_blob_readback", "WhatIs.C02.ssh_dsa_blob_described"],
     "facts": {"keys.rsaSizeFromByteLength": False, "names.curveOidCount": 19, "der.strictKeys": True, "der.pkcs1ExponentKind": "big", "der.pkcs1PubFieldCount": 2, "der.pkcs1PrivFieldCount": 10, "der.dsaPrivFieldCount": 6},
     "nontrivial": nt_c02,
     "rule": "keys written by the harness's own encoders into PKCS#1 public/private, SPKI, PKCS#8, SEC1, traditional DSA (DER and PEM, "
@@ -543,11 +543,11 @@ PROPS["C02"] = {
     "level_text": "Proof: for ALL moduli/primes the displayed size is the bit length in both attribute families (ASN.1 structures and "
                   "crypto.PublicKey), so the same key reports the same algorithm/size/curve whichever container carries it; the curve OID "
                   "table is injective and agrees with the Go-name path; the attribute builders take only the public part as input "
-                  "(non-interference by typing). For OpenSSH public keys of type ssh-rsa and ssh-ed25519 the container decoding itself is a "
+                  "(non-interference by typing). For OpenSSH public keys of type ssh-rsa, ssh-dss and ssh-ed25519 the container decoding itself is a "
                   "concrete model of x/crypto's ssh.ParsePublicKey (Model/SshWire.lean) with read-back theorems from the BYTES of the blob: "
                   "the RFC 4253 blob written for any odd exponent 3 <= e < 2^24 and ANY modulus is parsed to exactly (e, n) and described "
                   "with its type label and the bit length of n (ssh_rsa_blob_readback, ssh_rsa_blob_described, ssh_mpint_readback, "
-                  "ssh_ed25519_blob_readback); the PKCS#1 / DSA structures likewise (DerKeys). Decoding of the other containers and the "
+                  "ssh_ed25519_blob_readback, ssh_dsa_blob_described for ssh-dss); the PKCS#1 / DSA structures likewise (DerKeys). Decoding of the other containers and the "
                   "metadata (comment, cipher, KDF parameters and units) are tied by "
                   "the differential run against the generator's ground truth, not proved.",
     "level_note": "Trusted: Lean kernel; translator (names, curve OIDs, the BitLen-vs-Size fact); library decoders (encoding/asn1, "
